@@ -12,7 +12,7 @@
    the occurrences the scan visits (at most len+1), replace_all inserts the replacement verbatim
    between them, and the texts of a finished analyze iteration concatenate to the input (at most
    2*len+1 entries, each Match one String leaf). *)
-From RX Require Import Base.Prelude Model.Op Model.Engine Model.Matcher Model.Compiler Model.Api Proofs.LeafFacts Proofs.LiteralFacts Proofs.ScanFacts Proofs.AnalyzeFacts Proofs.AnalyzeIterFacts Proofs.LiteralApi.
+From RX Require Import Base.Prelude Model.Op Model.Engine Model.Matcher Model.Compiler Model.Api Proofs.LeafFacts Proofs.LiteralFacts Proofs.ScanFacts Proofs.AnalyzeFacts Proofs.AnalyzeIterFacts Proofs.LiteralApi Proofs.PlainPattern.
 
 Theorem C13_literal_program :
   forall fl p, f_literal fl = true ->
@@ -38,13 +38,13 @@ Theorem C13_literal_is_match :
     | MFalse _ => forall m, i <= m -> occurs_at p ci input m = false
     | MOut | MPanic _ => False
     end.
-Proof. intros p ci multi input i s_in H. exact (literal_matches_spec p ci multi input H i s_in). Qed.
+Proof. intros p ci multi input i s_in H. exact (literal_matches_spec p ci multi true input H i s_in). Qed.
 
 (* the matcher of a non-empty literal meets the interface the scan-loop theorems ask for *)
 Theorem C13_literal_matcher_interface :
   forall p ci multi input, (N.of_nat (length p) <= umax)%N -> p <> [] ->
     good_step_on (matches (mk_program p (OSeq [OAtom p; OEnd]) 1 ci multi true false) input) input lit_inv.
-Proof. exact literal_good_step. Qed.
+Proof. intros p ci multi input. exact (literal_good_step p ci multi true input). Qed.
 
 Theorem C13_literal_tokenize :
   forall p ci multi input, (N.of_nat (length p) <= umax)%N -> p <> [] ->
@@ -52,7 +52,7 @@ Theorem C13_literal_tokenize :
     forall k pe s, lit_inv s -> length input - pe < k -> pe <= length input ->
       tok_all (matches prog input) input (S (S k)) {| t_prev := Some pe; t_ms := s |}
       = Ok (pieces input (scan (matches prog input) input (S k) pe s) pe).
-Proof. intros p ci multi input H1 H2. exact (literal_tokenize p ci multi input H1 H2). Qed.
+Proof. intros p ci multi input H1 H2. exact (literal_tokenize p ci multi true input H1 H2). Qed.
 
 Theorem C13_literal_replace_verbatim :
   forall p ci multi input, (N.of_nat (length p) <= umax)%N -> p <> [] ->
@@ -60,7 +60,7 @@ Theorem C13_literal_replace_verbatim :
     forall repl k pos s result, lit_inv s -> length input - pos < k -> pos <= length input ->
       replace_loop (matches prog input) true 1 input repl (S k) pos s result false true
       = Ok (result ++ join repl (pieces input (scan (matches prog input) input (S k) pos s) pos)).
-Proof. intros p ci multi input H1 H2. exact (literal_replace p ci multi input H1 H2). Qed.
+Proof. intros p ci multi input H1 H2. exact (literal_replace p ci multi true input H1 H2). Qed.
 
 Theorem C13_literal_analyze :
   forall p ci multi input, (N.of_nat (length p) <= umax)%N -> p <> [] ->
@@ -69,10 +69,25 @@ Theorem C13_literal_analyze :
       an_all (matches prog input) (process_matching_substring table) input fuel
              {| a_next := None; a_prev := Some 0; a_skip := false; a_ms := s |} = Ok l ->
       flat_map atext l = input /\ length l <= 2 * length input + 1.
-Proof. intros p ci multi input H1 H2. exact (literal_analyze p ci multi input H1 H2). Qed.
+Proof. intros p ci multi input H1 H2. exact (literal_analyze p ci multi true input H1 H2). Qed.
 
 Example C13_initial_state_ok : lit_inv st0.
 Proof. reflexivity. Qed.
+
+(* what flag q changes for a pattern that has no metacharacter anyway: only the field that tells
+   replace_all / analyze "literal" - the operation tree, prefix, flags and group count of the
+   compiled program are those of the same pattern without q *)
+Theorem C13_q_on_ordinary_pattern :
+  forall fl fl' pat,
+    f_literal fl = true -> f_literal fl' = false -> f_ws fl' = false ->
+    f_case fl = f_case fl' -> f_multi fl = f_multi fl' ->
+    forallb ordinary pat = true -> pat <> [] ->
+    compile false fl pat = Ok (mk_program pat (OSeq [OAtom pat; OEnd]) 1 (f_case fl) (f_multi fl) true false)
+    /\ compile false fl' pat = Ok (mk_program pat (OSeq [OAtom pat; OEnd]) 1 (f_case fl) (f_multi fl) false false).
+Proof.
+  intros fl fl' pat H1 H2 H3 Hc Hm Ho Hne. split; [exact (literal_program false fl pat H1)|].
+  rewrite Hc, Hm. exact (compile_ordinary false fl' pat H2 H3 Ho Hne).
+Qed.
 
 Print Assumptions C13_literal_program.
 Print Assumptions C13_other_flags_ignored.
@@ -81,3 +96,4 @@ Print Assumptions C13_literal_matcher_interface.
 Print Assumptions C13_literal_tokenize.
 Print Assumptions C13_literal_replace_verbatim.
 Print Assumptions C13_literal_analyze.
+Print Assumptions C13_q_on_ordinary_pattern.
